@@ -1,6 +1,6 @@
 (** Extraction of the group "select" (C13, C15) to OCaml. *)
 From Coq Require Extraction ExtrOcamlBasic.
-From DivanV Require Import Base.Res Base.ExtractPrelude Model.SplitVec Model.Filter Model.Retain Model.Options Model.RunnerConfig.
+From DivanV Require Import Base.Res Base.ExtractPrelude Model.SplitVec Model.Filter Model.Retain Model.Options Model.RunnerConfig Model.TreeBuild.
 Extraction Language OCaml.
 Set Extraction KeepSingleton.
 Extraction "model.ml" extraction_prelude
@@ -9,4 +9,5 @@ Extraction "model.ml" extraction_prelude
   resolve resolve_sb overwrite o_default set_field get to_collection set_counter thread_counts thread_counts_sb
   set_threads strictly_increasing mem_N into_threads_usize into_threads_bool runner_level spec_runner spec_effective
   observe should_ignore effective_ignore first_some precedence norm_threads effective_skip_ext bytes_format_level decimal_nanos parse_seconds_sb time_limits
-  runner_config_resolve config_spec runner_filter_is_match runner_filter_spec.
+  runner_config_resolve config_spec runner_filter_is_match runner_filter_spec
+  build_tree options_on_tree spec_options_of_bench unique_parents.
